@@ -120,14 +120,13 @@ def printExtent (e : Extent) : List Byte := lit "extent(" ++ showInt e.width ++ 
 def printRectangle (r : Rectangle) : List Byte :=
   lit "rectangle(" ++ printPoint r.origin ++ lit ", " ++ printExtent r.size ++ lit ")"
 
-/-- `operator<<(ostream&, mouse::event)`; `code` is the stored action value (any byte) -/
+/-- `operator<<(ostream&, mouse::event)`; the action names are the arms of its `switch`, regenerated from src/mouse.cpp
+    (`Tables.mouse_printed`); any other stored action value prints `unk` -/
 def printMouse (ev : MouseEvent) : List Byte :=
-  let code := ev.action
   lit "mouse_event[" ++ printPoint ev.position ++ lit ", " ++
-  (if code = Consts.ev_left_button_down then lit "lmb" else if code = Consts.ev_middle_button_down then lit "mmb"
-   else if code = Consts.ev_right_button_down then lit "rmb" else if code = Consts.ev_button_up then lit "up"
-   else if code = Consts.ev_no_button_change then lit "no-change" else if code = Consts.ev_scrollwheel_down then lit "sdn"
-   else if code = Consts.ev_scrollwheel_up then lit "sup" else lit "unk") ++ lit "]"
+  (match Tables.mouse_printed.find? (fun p => p.1 = ev.action) with
+   | some p => p.2.map UInt8.ofNat
+   | none => lit "unk") ++ lit "]"
 
 /-- `operator<<(ostream&, control_sequence)`: the non-default members, separated by `, ` -/
 def printCtrlSeq (c : ControlSequence) : List Byte :=
@@ -139,22 +138,13 @@ def printCtrlSeq (c : ControlSequence) : List Byte :=
     (if c.extender ≠ 0 then [lit "extender:'" ++ [c.extender] ++ lit "'"] else [])
   lit "control_sequence[" ++ (parts.intersperse (lit ", ")).flatten ++ lit "]"
 
-/-- names of the abstract keys in `operator<<(ostream&, vk)` -/
-def vkNames : List (Nat × String) :=
-  [(Consts.vk_cursor_up, "cursor_up"), (Consts.vk_cursor_down, "cursor_down"), (Consts.vk_cursor_left, "cursor_left"),
-   (Consts.vk_cursor_right, "cursor_right"), (Consts.vk_home, "home"), (Consts.vk_ins, "ins"), (Consts.vk_end, "end"),
-   (Consts.vk_pgup, "pgup"), (Consts.vk_pgdn, "pgdn"), (Consts.vk_bt, "bt"), (Consts.vk_enter, "enter"),
-   (Consts.vk_f1, "f1"), (Consts.vk_f2, "f2"), (Consts.vk_f3, "f3"), (Consts.vk_f4, "f4"), (Consts.vk_f5, "f5"),
-   (Consts.vk_f6, "f6"), (Consts.vk_f7, "f7"), (Consts.vk_f8, "f8"), (Consts.vk_f9, "f9"), (Consts.vk_f10, "f10"),
-   (Consts.vk_f11, "f11"), (Consts.vk_f12, "f12")]
-
-/-- `operator<<(ostream&, vk)` -/
+/-- `operator<<(ostream&, vk)`: the arms of its `switch` are regenerated from src/virtual_key.cpp (`Tables.vk_printed`:
+    the three escaped control characters and the names of the abstract keys); other control keys print as `'\\xNN'` -/
 def printVk (k : Nat) : List Byte :=
   if k ≤ 0x1F ∨ (Consts.vk_del ≤ k ∧ k ≤ Consts.vk_f12) then
-    if k = 0x0D then lit "'\\r'" else if k = 0x0A then lit "'\\n'" else if k = 0x09 then lit "'\\t'"
-    else match vkNames.find? (fun p => p.1 = k) with
-      | some p => lit p.2
-      | none => lit "'\\x" ++ hexPadUpper 2 (k % 256) ++ lit "'"
+    match Tables.vk_printed.find? (fun p => p.1 = k) with
+    | some p => p.2.map UInt8.ofNat
+    | none => lit "'\\x" ++ hexPadUpper 2 (k % 256) ++ lit "'"
   else lit "'" ++ [UInt8.ofNat k] ++ lit "'"
 
 def printVkMods (m : Nat) : List Byte :=
